@@ -72,9 +72,9 @@ def run(ctx):
     _pick_price(ctx)
     f = ctx.fn(SW + r"Swap::<M, DECIMALS>::try_execute")
     if f is not None:
-        _conversion(ctx, f)
-        _token_out(ctx, f)
-        _funded(ctx, f)
+        _conversion(ctx, prog, f)
+        _token_out(ctx, prog, f)
+        _funded(ctx, prog, f)
     _reassign(ctx)
     _cap(ctx, prog)
 
@@ -91,28 +91,37 @@ def _pick_price(ctx):
            where=f.where())
 
 
-def _conversion(ctx, f):
-    sites = [c for c in f.calls if H.prim_class(c.callee) and not re.search(r"checked_div$|Div::div$", c.short)]
+def _conversion(ctx, prog, f):
+    # call sites of try_execute AND of the private helpers / local closures it enters (arguments and guards translated back)
+    vs = H.vcalls(prog, f)
+    sites = [v for v in vs if H.prim_class(v.callee) and not re.search(r"checked_div$|Div::div$", v.short)]
+    POS = r"^Signed::is_positive\(IMPACT\.value\)$"
     n = 0
-    for c in sites:
+    for v in sites:
         n += 1
-        arm = "positive" if any(t and re.search(r"^Signed::is_positive\(IMPACT\.value\)$", str(abbrev(g))) for g, t in f.bool_guards(c.bb)) else \
-            ("non-positive" if any((not t) and re.search(r"^Signed::is_positive\(IMPACT\.value\)$", str(abbrev(g))) for g, t in f.bool_guards(c.bb)) else "unguarded")
-        a1, a2 = str(abbrev(H.arg_at(c, 1))), str(abbrev(H.arg_at(c, 2)))
-        ok = c.short == "MulDiv::checked_mul_div" and a1 == "Price::pick_price(RV.token_in_price, false)" and a2 == "Price::pick_price(RV.token_out_price, true)"
+        g = v.guard(POS, abbrev)
+        arm = "positive" if g is True else ("non-positive" if g is False else "unguarded")
+        a1, a2 = str(abbrev(v.arg(1))), str(abbrev(v.arg(2)))
+        ok = v.short == "MulDiv::checked_mul_div" and a1 == "Price::pick_price(RV.token_in_price, false)" and a2 == "Price::pick_price(RV.token_out_price, true)"
         ctx.ob("conversion:" + arm, ok and arm != "unguarded",
-               "try_execute, %s-impact arm: %s(x, %s, %s) — want floor mul-div by min in-price over max out-price" % (arm, c.short, a1, a2), where=c.where())
+               "try_execute, %s-impact arm: %s(x, %s, %s)%s — want floor mul-div by min in-price over max out-price" % (
+                   arm, v.short, a1, a2, " via private helper %s" % v.chain[0].short if v.depth else ""), where=v.where())
     ctx.floor("conversion", n, 2)
-    other = [c.short for c in f.calls if re.search(r"(div_ceil|checked_round_up_div|as_divisor_to_round_up_magnitude_div|checked_mul_div_ceil)$", c.short)]
-    ctx.ob("conversion:no-other-rounding", not other and n == 2, "exactly two conversion sites and no ceil/away primitive in try_execute (%s)" % other, where=f.where())
+    other = [v.short for v in vs if re.search(r"(div_ceil|checked_round_up_div|as_divisor_to_round_up_magnitude_div|checked_mul_div_ceil)$", v.short)]
+    ctx.ob("conversion:no-other-rounding", not other and n == 2,
+           "exactly two conversion sites and no ceil/away primitive in try_execute and the private helpers it calls (%s)" % other, where=f.where())
 
 
-def _result(ctx, f):
+PRIM_RE = r"(checked_mul_div|checked_mul_div_ceil|checked_round_up_div|div_ceil|as_divisor_to_round_up_magnitude_div)$"
+
+
+def _result(ctx, prog, f):
     oks = [(bb, e) for bb, k, e in f.exits() if k == "ok"]
     if len(oks) != 1:
         ctx.ob("token-out:exit", False, "try_execute has %d Ok exits, expected 1" % len(oks), where=f.where())
         return None
-    e = abbrev(H.ret_at(f, oks[0][0]))
+    # a conversion moved into a private helper is substituted back before the value forms are read
+    e = abbrev(H.inline_calls(prog, f, H.ret_at(f, oks[0][0]), PRIM_RE))
     e = H.peel(e)
     if not (e.k == "agg" and len(e.a[1]) == 2):
         ctx.ob("token-out:exit", False, "Ok value is not (cache, result)", where=f.where())
@@ -120,8 +129,8 @@ def _result(ctx, f):
     return dict(e.a[1][0][1].a[1]), dict(e.a[1][1][1].a[1])
 
 
-def _token_out(ctx, f):
-    r = _result(ctx, f)
+def _token_out(ctx, prog, f):
+    r = _result(ctx, prog, f)
     if r is None:
         return
     cache, res = r
@@ -192,8 +201,8 @@ def _token_out(ctx, f):
     ctx.ob("token-out:zero-input-rejected", zero_guard, "a token_in_amount reduced to zero by negative impact is rejected (Err under is_zero)", where=f.where())
 
 
-def _funded(ctx, f):
-    r = _result(ctx, f)
+def _funded(ctx, prog, f):
+    r = _result(ctx, prog, f)
     if r is None:
         return
     cache, _res = r
